@@ -150,19 +150,23 @@ LiveS(s, out, devs) ==
 BodyOut(s, out, devs) == IF s.k = "for" THEN FixFor(s, out, {"__none__"}, out, devs) ELSE LiveS(s, out, devs)
 
 \* exposed_uses(block)
-RECURSIVE ExpS(_, _), ExpB(_, _)
-ExpB(b, out) == IF b = <<>> THEN out ELSE ExpS(Head(b), ExpB(Tail(b), out))
-ExpS(s, out) ==
+RECURSIVE ExpS(_, _, _), ExpB(_, _, _)
+ExpB(b, out, devs) == IF b = <<>> THEN out ELSE ExpS(Head(b), ExpB(Tail(b), out, devs), devs)
+ExpS(s, out, devs) ==
   CASE s.k = "asg" -> (out \ {s.v}) \cup UsedE(s.e)
     [] s.k = "pasg" -> (out \ PDefs(s)) \cup PUses(s)
-    [] s.k = "if" -> ExpB(s.t, out) \cup ExpB(s.f, out) \cup {s.v}
-    [] s.k = "for" -> (ExpB(s.t, {}) \ {s.v}) \cup UsedE(s.e) \cup (out \ {s.v})
-    [] s.k = "while" -> ExpB(s.t, {}) \cup {s.v} \cup out
+    [] s.k = "if" -> ExpB(s.t, out, devs) \cup ExpB(s.f, out, devs) \cup {s.v}
+    \* the loop may run zero times: it does not kill its variable ("exposed_for_kills_var": the code removed it from live_out)
+    [] s.k = "for" -> (ExpB(s.t, {}, devs) \ {s.v}) \cup UsedE(s.e) \cup (IF "exposed_for_kills_var" \in devs THEN out \ {s.v} ELSE out)
+    [] s.k = "while" -> ExpB(s.t, {}, devs) \cup {s.v} \cup out
     [] s.k = "brk" -> out
-Exposed(b) == ExpB(b, {})
+Exposed(b, devs) == ExpB(b, {}, devs)
 
 IfOutputs(s, out) == Assigned(s) \cap out
-LoopState(s, out) == AssignedB(s.t) \cap (Exposed(s.t) \cup out)
+\* Python leaves the last index in a for variable: when it is live after the loop it is carried as well (its value at the
+\* end of the body is exported).  "loop_var_after": the code did not, the name kept its value from before the loop.
+LoopState(s, out, devs) == (AssignedB(s.t) \cap (Exposed(s.t, devs) \cup out))
+                           \cup (IF s.k = "for" /\ s.v \in out /\ "loop_var_after" \notin devs THEN {s.v} ELSE {})
 
 -----------------------------------------------------------------------------
 (* converter.py: static binding discipline.  B = set of names bound (visible) at this point.    *)
@@ -187,7 +191,7 @@ TransS(s, B, top, out, devs) ==
               /\ O # {}                                   \* "A subgraph for a test do not have any output variable"
               /\ O \subseteq rt[1] /\ O \subseteq rf[1]>> \* else: "not assigned a value along a conditional branch"
     [] s.k \in {"for", "while"} ->
-         LET S == LoopState(s, out)
+         LET S == LoopState(s, out, devs)
              lv == IF s.k = "for" THEN {s.v} ELSE {}
              rb == TransB(s.t, B \cup lv \cup S, lv \cup S, BodyOut(s, out, devs), devs)
              lastBrk == s.t # <<>> /\ s.t[Len(s.t)].k = "brk"
@@ -207,7 +211,7 @@ RECURSIVE SelS(_, _, _), SelB(_, _, _)
 SelB(b, out, devs) == IF b = <<>> THEN <<>> ELSE SelS(Head(b), LiveB(Tail(b), out, devs), devs) \o SelB(Tail(b), out, devs)
 SelS(s, out, devs) ==
   CASE s.k = "if" -> <<[k |-> "If", vs |-> IfOutputs(s, out)]>> \o SelB(s.t, out, devs) \o SelB(s.f, out, devs)
-    [] s.k \in {"for", "while"} -> <<[k |-> "Loop", vs |-> LoopState(s, out)]>> \o SelB(s.t, BodyOut(s, out, devs), devs)
+    [] s.k \in {"for", "while"} -> <<[k |-> "Loop", vs |-> LoopState(s, out, devs)]>> \o SelB(s.t, BodyOut(s, out, devs), devs)
     [] OTHER -> <<>>
 
 (* what the emitted graph computes.  benv: binding environment (value of each visible name)      *)
@@ -220,7 +224,8 @@ GExecB(b, env, out, devs) ==
 GIterFor(s, outer, carried, i, n, bout, devs) ==
   IF i >= n \/ Bad(carried) THEN carried
   ELSE LET S == DOMAIN bout.S
-           start == [v \in EnvV |-> IF v = s.v THEN i ELSE IF v \in bout.Sv \/ v = "#" THEN carried[v] ELSE outer[v]]
+           start == [v \in EnvV |-> IF v = s.v /\ ~("carried_shadows_loop_var" \in devs /\ s.v \in bout.Sv) THEN i   \* (code: the carried parameter was bound over the index)
+                                   ELSE IF v \in bout.Sv \/ v = "#" THEN carried[v] ELSE outer[v]]
            e1 == GExecB(s.t, start, bout.o, devs)
            nxt == Restrict(carried, e1, bout.Sv)
        IN IF ~Bad(e1) /\ s.t[Len(s.t)].k = "brk" /\ e1["w"] > 0 THEN nxt
@@ -239,11 +244,11 @@ GExec(s, env, out, devs) ==
                      ELSE LET br == IF env[s.v] > 0 THEN s.t ELSE s.f
                           IN Restrict(env, GExecB(br, env, out, devs), IfOutputs(s, out))
     [] s.k = "for" -> LET n == EvalE(s.e, env)
-                          bo == [S |-> [v \in {} |-> 0], Sv |-> LoopState(s, out), o |-> BodyOut(s, out, devs), devs |-> devs]
+                          bo == [S |-> [v \in {} |-> 0], Sv |-> LoopState(s, out, devs), o |-> BodyOut(s, out, devs), devs |-> devs]
                       IN IF n = UNDEF THEN [env EXCEPT !["#"] = 1]
                          ELSE IF n > MAXTRIP THEN [env EXCEPT !["#"] = 3]
                          ELSE Restrict(env, GIterFor(s, env, env, 0, n, bo, devs), bo.Sv)
-    [] s.k = "while" -> LET bo == [S |-> [v \in {} |-> 0], Sv |-> LoopState(s, out), o |-> BodyOut(s, out, devs), devs |-> devs]
+    [] s.k = "while" -> LET bo == [S |-> [v \in {} |-> 0], Sv |-> LoopState(s, out, devs), o |-> BodyOut(s, out, devs), devs |-> devs]
                         IN IF env["w"] = UNDEF THEN [env EXCEPT !["#"] = 1]
                            ELSE Restrict(env, GIterWhile(s, env, env, env["w"], FUEL, bo), bo.Sv)
     [] s.k = "brk" -> env
@@ -254,7 +259,9 @@ AsgMenu == LET base == {EV("a"), EV("x"), EV("y"), EAddC("x", 1), EAddC("y", 1),
                rich == {ECall("x"), EAttr("y"), EAddC("a", -1), EAddC("x", -1)} \cup {EAdd("y", stack[d].v) : d \in {d \in 1..Len(stack) : stack[d].k = "for"}}
                tiny == {EV("a"), EAddC("x", 1), EMul("x", "y"), EV("y")}     \* small alphabet for deeper exhaustive structure
                ops == {EV("a"), EAddC("x", 1), EIdx(1), EIdx(2), ECall2("x", "y", 3), ECall2L("x"), EModC("x", 3), ENeg("y")}   \* other operators / call forms
-           IN [v : AVars, e : IF Ops THEN ops ELSE IF Tiny THEN tiny ELSE IF Rich THEN base \cup rich \cup ops ELSE base]
+               \* "lvar": a loop variable that also exists outside its loop (defined before, read after: Python leaves the last index in it)
+               lvar == IF "lvar" \in Kinds THEN {[v |-> "x", e |-> EAdd("x", "i")], [v |-> "x", e |-> EAdd("x", "j")], [v |-> "i", e |-> EAddC("i", 1)]} ELSE {}
+           IN [v : AVars, e : IF Ops THEN ops ELSE IF Tiny THEN tiny ELSE IF Rich THEN base \cup rich \cup ops ELSE base] \cup lvar
 Bounds == {EV("n"), EV("x"), EC(2)}
 CondVars == {"a", "x", "y"}
 WhileConds == {ELt("x", 2), EGt("y", 0)}
@@ -271,7 +278,8 @@ HasBrk(b) == b # <<>> /\ b[Len(b)].k = "brk"
 \* every program starts with a prelude that defines x (and, in one variant, y): a variable first
 \* assigned inside a branch or loop stays possible, programs that only read undefined names are pruned
 Preludes == {<<SAsg("x", EAddC("a", 1))>>, <<SAsg("x", EAddC("a", 1)), SAsg("y", EV("a"))>>}
-Init == /\ \E p \in Preludes : stack = <<[Frame("fn", "", EC(0)) EXCEPT !.blk = p]>>
+LVarPrelude == <<SAsg("x", EAddC("a", 1)), SAsg("i", EV("a")), SAsg("j", EV("n"))>>
+Init == /\ \E p \in (IF "lvar" \in Kinds THEN {LVarPrelude} ELSE Preludes) : stack = <<[Frame("fn", "", EC(0)) EXCEPT !.blk = p]>>
         /\ nodes = 0 /\ stage = "build"
         /\ prog = <<>> /\ ret = <<>> /\ refused = FALSE /\ res = <<>> /\ info = <<>>
 AddAsg == /\ CanAdd /\ ~HasBrk(Top.blk)
@@ -360,6 +368,8 @@ ImplFaithful == stage = "done" => FaithfulOf(refused, res)
 SomeAcceptedLoopIf == ~(stage = "done" /\ ~refused /\ \E j \in 1..Len(prog) : prog[j].k = "for" /\ \E m \in 1..Len(prog[j].t) : prog[j].t[m].k = "if")
 AllKinds == {"if", "for", "while", "brk"}
 PAsgKinds == {"pasg", "if", "for"}
+LVarKinds == {"lvar", "if", "for"}
+LVarDevs == {"loop_var_after", "exposed_for_kills_var", "carried_shadows_loop_var"}
 TupleDevs == {"tuple_assign_sequential"}
 LoopKinds == {"for"}
 IfForKinds == {"if", "for"}
@@ -368,5 +378,6 @@ NoDevs == {}
 \* the implementation model now runs without them; a regression re-introducing either shows up as a violation
 RealDevs == {}
 \* "tuple_assign_sequential" (x, y = y, x translated as x = y; y = x) was found by this spec and is fixed as well
-OldDevs == {"loop_livein_drops_liveout", "for_bound_not_live", "tuple_assign_sequential"}
+\* "loop_var_after", "carried_shadows_loop_var", "exposed_for_kills_var" (for variables that live outside their loop): found by this spec, fixed
+OldDevs == {"loop_livein_drops_liveout", "for_bound_not_live", "tuple_assign_sequential", "loop_var_after", "carried_shadows_loop_var", "exposed_for_kills_var"}
 =============================================================================
